@@ -1,6 +1,7 @@
 package cmd
 
 import (
+	"math"
 	"encoding/json"
 	"fmt"
 	"github.com/modernizing/coca/cmd/cmd_util"
@@ -42,7 +43,15 @@ var evaluateCmd = &cobra.Command{
 
 		result := analyser.Analysis(parsedDeps, identifiers)
 
-		cModel, _ := json.MarshalIndent(result, "", "\t")
+		// the deviations are NaN for fewer than two samples and JSON has no NaN: without this the report was empty
+		jsonResult := result
+		if math.IsNaN(jsonResult.Summary.MethodLengthStdDeviation) {
+			jsonResult.Summary.MethodLengthStdDeviation = 0
+		}
+		if math.IsNaN(jsonResult.Summary.MethodNumStdDeviation) {
+			jsonResult.Summary.MethodNumStdDeviation = 0
+		}
+		cModel, _ := json.MarshalIndent(jsonResult, "", "\t")
 		cmd_util.WriteToCocaFile("evaluate.json", string(cModel))
 
 		buildOutput(result)
